@@ -134,7 +134,13 @@ def value_wire_mismatches(obj):
         if not isinstance(lc.value, int):
             bad.append((repr(lc.value), "non-int"))
             continue
-        w = R.ev(lc.lc)
+        try:
+            w = R.ev(lc.lc)
+        except Exception as ex:  # noqa: BLE001  (recorder: StaleVariable - a wire of an earlier execution)
+            if type(ex).__name__ != "StaleVariable":
+                raise
+            bad.append((lc.value, "wire of an earlier run"))
+            continue
         if (lc.value - w) % p:
             bad.append((lc.value, w))
     return bad
